@@ -11,6 +11,42 @@ import threading
 
 import numpy as np
 
+# ---------------------------------------------------------------------------------------- private state, robustly
+# Observing a container must not convert, cache or initialise anything, so the probes look at the private fields —
+# but a private name may be renamed by a refactoring: every access goes through these helpers, which fall back to the
+# public accessor (guarded against its "not initialised" error) when the private name is gone.
+_MISSING = object()
+
+
+def held_array(cont):
+    """what a bucket container holds (ndarray / DataArray) or None when it holds nothing"""
+    v = getattr(cont, "_array", _MISSING)
+    if v is not _MISSING:
+        return v
+    try:
+        return cont.array
+    except Exception:  # noqa: BLE001  ("not initialised")
+        return None
+
+
+def charge_frame(charge):
+    """the cluster dataframe of the charge bucket"""
+    v = getattr(charge, "_frame", _MISSING)
+    return charge.frame if v is _MISSING else v
+
+
+def container(detector, name: str):
+    """the bucket container `name` of a detector, or None when the detector has none yet"""
+    v = getattr(detector, "_" + name, _MISSING)
+    if v is not _MISSING:
+        return v
+    try:
+        return getattr(detector, name)
+    except Exception:  # noqa: BLE001
+        return None
+
+
+
 LOG: list = []
 
 
@@ -100,22 +136,22 @@ def c02_state(detector) -> list:
     """canonical tokens [scene, photon, charge, pixel, signal, image]; None = holds nothing
     (charge: zero array and no clusters); pixel 0 = all-zero array.  Reads private fields only,
     so that observing never converts or initialises anything."""
-    tree = detector._scene.data
+    tree = container(detector, "scene").data
     if tree.is_empty and not tree.children:
         scene = None
     elif "tok" in tree.children:
         scene = int(tree["tok"]["v"])
     else:
         scene = C02_BIG
-    ch = detector._charge
-    if len(ch._frame):
-        charge = 10**6 + int(round(float(ch._frame["number"].sum())))
+    ch = container(detector, "charge")
+    if len(charge_frame(ch)):
+        charge = 10**6 + int(round(float(charge_frame(ch)["number"].sum())))
     else:
-        charge = _c02_tok(ch._array)
+        charge = _c02_tok(held_array(ch))
         if charge == 0:
             charge = None
-    return [scene, _c02_tok(detector._photon._array), charge, _c02_tok(detector._pixel._array),
-            _c02_tok(detector._signal._array), _c02_tok(detector._image._array)]
+    return [scene, _c02_tok(held_array(container(detector, "photon"))), charge, _c02_tok(held_array(container(detector, "pixel"))),
+            _c02_tok(held_array(container(detector, "signal"))), _c02_tok(held_array(container(detector, "image")))]
 
 
 def c02_apply(detector, ops) -> None:
@@ -220,7 +256,7 @@ def fill(detector, level: float = 100.0, bucket: str = "photon") -> None:
 def noisy_to_image(detector, scale: float = 1.0) -> None:
     """stochastic model WITHOUT its own seed: image = clip(photon + N(0, scale)) — reproducible only
     under a pipeline seed (draws from the process-wide generator)."""
-    base = detector.photon.array if detector.photon._array is not None else np.zeros(detector.geometry.shape)
+    base = detector.photon.array if held_array(detector.photon) is not None else np.zeros(detector.geometry.shape)
     noise = np.random.normal(scale=scale, size=base.shape)
     detector.pixel.array = np.asarray(base + noise, dtype=float)
     detector.image.array = np.clip(np.rint(base + noise), 0, 65535).astype(np.uint16)
@@ -368,11 +404,11 @@ def _c03_ints(a) -> list:
     return [int(v) for v in a.astype(np.float64).ravel().tolist()]
 
 
-def _c03_charge_of_frame(c) -> np.ndarray:
+def _c03_charge_of_frame(c, geo) -> np.ndarray:
     """what the charge bucket holds when it keeps clusters: per-pixel sum of the clusters' `number`
     (pixel = floor(position / pixel size); clusters outside the area are not collected) — recomputed
     from the dataframe, independently of `Charge.array` / `convert_df_to_array`"""
-    geo, fr = c._geo, c._frame
+    fr = charge_frame(c)
     arr = np.zeros((geo.row, geo.col), dtype=np.float64)
     num = fr["number"].to_numpy(dtype=float)
     rr = np.floor_divide(fr["position_ver"].to_numpy(dtype=float), geo.pixel_vert_size)
@@ -407,11 +443,11 @@ def c03_visible(detector) -> dict:
     reads private fields only (observing must not convert or initialise anything)"""
     out = {}
     for b in C03_BUCKETS:
-        c = getattr(detector, "_" + b)
-        if b == "charge" and len(c._frame):
-            arr = _c03_charge_of_frame(c)  # never through `Charge.array`: observing must not convert / cache
+        c = container(detector, b)
+        if b == "charge" and len(charge_frame(c)):
+            arr = _c03_charge_of_frame(c, detector.geometry)  # never through `Charge.array`: observing must not convert / cache
         else:
-            arr = c._array
+            arr = held_array(c)
         if arr is None:
             out[b] = None
         elif isinstance(arr, np.ndarray):
@@ -451,19 +487,20 @@ def c03_apply(detector, ops) -> None:
             if b == "charge":
                 c.add_charge_array(np.full((rows, cols), float(k)))
             else:
-                c._array += np.asarray(k, dtype=c._array.dtype)
+                held = held_array(c)
+                held += np.asarray(k, dtype=held.dtype)  # in place, on the array the bucket holds
         elif kind == "same":  # ["same", bucket]  rewrite the bucket with a copy of what it holds
             b = op[1]
             c = getattr(detector, b)
-            if c._array is not None and b != "charge":
-                c.array = np.array(c._array, copy=True)
+            if held_array(c) is not None and b != "charge":
+                c.array = np.array(held_array(c), copy=True)
         elif kind == "zero":  # ["zero", bucket, dtype]  every entry set to exactly 0 (charge: emptied)
             b = op[1]
             if b == "charge":
                 detector.charge.empty()
             else:
                 c = getattr(detector, b)
-                c.array = np.zeros((rows, cols), dtype=c._array.dtype if c._array is not None else np.dtype(op[2]))
+                c.array = np.zeros((rows, cols), dtype=held_array(c).dtype if held_array(c) is not None else np.dtype(op[2]))
         elif kind == "clusters":  # ["clusters", "add_charge"|"dataframe", [[number, row, col] …]]
             _c03_clusters(detector, op[2], op[1])
         elif kind == "cl_scale":  # ["cl_scale", k]  every cluster's number × k, through set_frame_values
